@@ -30,6 +30,7 @@ type oscen struct {
 	InFlight string // held | parked: how the queries in flight at the stop point end afterwards (reply | time-out)
 	Opts     bool   // announce: also announce_peer to the closest nodes
 	NoValue  bool   // get: nobody has the item
+	Holders  bool   // get: every node has the item, so that several queries hold a value when the first one ends the lookup
 	Cause    string
 }
 
@@ -85,6 +86,11 @@ func ownerScenarios() []oscen {
 		if o.owner == "Get" {
 			s.NoValue, s.Name = true, n("finish-novalue")
 			add(s)
+			s.NoValue, s.Holders = false, true
+			for _, k := range []string{"a", "b", "c", "d", "e", "f"} {
+				s.Name = n("finish-all-hold-" + k)
+				add(s)
+			}
 		}
 		for _, stop := range []string{"cancel", "srvclose"} {
 			s = b
@@ -227,6 +233,11 @@ func runOwner(tr *sim.Trace, seg int, seed int64, sc oscen) ostatus {
 	nd[0].nodes = []*simNode{nd[2], nd[3]}
 	nd[1].nodes = []*simNode{nd[3]}
 	nd[2].nodes = []*simNode{nd[0]}
+	if sc.Holders {
+		for _, x := range nd {
+			x.value = true
+		}
+	}
 	if !sc.NoValue {
 		nd[2].value = true
 		if sc.Owner == "Announce" {
